@@ -12,6 +12,9 @@ import (
 	gossh "golang.org/x/crypto/ssh"
 )
 
+// MaxBeforeContext is the max amount of before context lines a client can ask for.
+const MaxBeforeContext int = 1000000
+
 // Args is a helper struct to summarize common client arguments.
 type Args struct {
 	lcontext.LContext
@@ -151,6 +154,11 @@ func setOption(key, val string, options map[string]string, ltx *lcontext.LContex
 		iVal, err := strconv.Atoi(val)
 		if err != nil {
 			return options, err
+		}
+		// The server keeps that many lines in memory per file.
+		if iVal > MaxBeforeContext {
+			return options, fmt.Errorf("Before context %d too large, the max is %d",
+				iVal, MaxBeforeContext)
 		}
 		ltx.BeforeContext = iVal
 	case "after":
